@@ -87,7 +87,7 @@ func (p *Prog) enumPaths(f *ssa.Function, unroll, limit int) (paths []cfgPath, o
 		for i, s := range b.Succs {
 			n := len(cur.Facts)
 			if ifc != nil && b.Succs[0] != b.Succs[1] {
-				cur.Facts = append(cur.Facts, fact{ifc.Cond, i == 0})
+				cur.Facts = append(cur.Facts, fact{Cond: ifc.Cond, Val: i == 0, At: len(cur.Blocks) - 1})
 			}
 			walk(s)
 			cur.Facts = cur.Facts[:n]
